@@ -1,0 +1,97 @@
+//go:build verif
+
+package gtab
+
+import (
+	"bytes"
+	"errors"
+
+	"seehuhn.de/go/sfnt/parser"
+)
+
+// Hooks for the C08 verification harness (add-only).
+
+// VerifC08Blob is an opaque subtable: the "abstract subtable of a given size"
+// of the lookup list layout model.
+type VerifC08Blob []byte
+
+func (b VerifC08Blob) apply(ctx *Context, i, j int) int { return -1 }
+func (b VerifC08Blob) encodeLen() int                    { return len(b) }
+func (b VerifC08Blob) encode() []byte                    { return []byte(b) }
+
+// VerifC08EncodeLookupList exposes LookupList.encode.
+func VerifC08EncodeLookupList(ll LookupList) []byte { return ll.encode() }
+
+// VerifC08EncodeLen exposes Subtable.encodeLen.
+func VerifC08EncodeLen(s Subtable) int { return s.encodeLen() }
+
+// VerifC08Encode exposes Subtable.encode.
+func VerifC08Encode(s Subtable) []byte { return s.encode() }
+
+// VerifC08Pos is what the abstract subtable reader returns: the absolute
+// position at which a subtable starts.
+type VerifC08Pos int64
+
+func (b VerifC08Pos) apply(ctx *Context, i, j int) int { return -1 }
+func (b VerifC08Pos) encodeLen() int                    { return 0 }
+func (b VerifC08Pos) encode() []byte                    { return nil }
+
+// VerifC08ReadLookupListAbstract runs readLookupList with a subtable reader
+// that only records where each subtable starts; lookups of type extType are
+// read as extension records (format word must be 1, as in the real readers).
+func VerifC08ReadLookupListAbstract(data []byte, pos int64, extType uint16) (LookupList, error) {
+	sr := func(p *parser.Parser, pos int64, meta *LookupMetaInfo) (Subtable, error) {
+		if meta.LookupType != extType {
+			return VerifC08Pos(pos), nil
+		}
+		if err := p.SeekPos(pos); err != nil {
+			return nil, err
+		}
+		format, err := p.ReadUint16()
+		if err != nil {
+			return nil, err
+		}
+		if format != 1 {
+			return nil, errors.New("unknown extension subtable format")
+		}
+		return readExtensionSubtable(p, pos)
+	}
+	return readLookupList(parser.New(bytes.NewReader(data)), pos, sr)
+}
+
+// VerifC08ReadLookupList exposes readLookupList with the real readers.
+func VerifC08ReadLookupList(data []byte, pos int64, tp Type) (LookupList, error) {
+	sr := readGsubSubtable
+	if tp == TypeGpos {
+		sr = readGposSubtable
+	}
+	return readLookupList(parser.New(bytes.NewReader(data)), pos, sr)
+}
+
+// VerifC08ReadSubtable reads one subtable of the given lookup type at pos.
+func VerifC08ReadSubtable(data []byte, pos int64, tp Type, lookupType uint16) (Subtable, error) {
+	sr := readGsubSubtable
+	if tp == TypeGpos {
+		sr = readGposSubtable
+	}
+	return sr(parser.New(bytes.NewReader(data)), pos, &LookupMetaInfo{LookupType: lookupType})
+}
+
+// VerifC08ValueRecord exposes getFormat / encodeLen / encode / readValueRecord.
+func VerifC08ValueFormat(vr *GposValueRecord) uint16 { return vr.getFormat() }
+func VerifC08ValueEncodeLen(vr *GposValueRecord, format uint16) int {
+	return vr.encodeLen(format)
+}
+func VerifC08ValueEncode(vr *GposValueRecord, format uint16) []byte { return vr.encode(format) }
+func VerifC08ValueRead(data []byte, format uint16) (*GposValueRecord, error) {
+	return readValueRecord(parser.New(bytes.NewReader(data)), format)
+}
+
+// VerifC08FeatureList exposes FeatureListInfo.encode / readFeatureList.
+func VerifC08FeatureListEncode(info FeatureListInfo) []byte { return info.encode() }
+func VerifC08FeatureListRead(data []byte, pos int64) (FeatureListInfo, error) {
+	return readFeatureList(parser.New(bytes.NewReader(data)), pos)
+}
+
+// VerifC08ScriptListEncode exposes ScriptListInfo.encode.
+func VerifC08ScriptListEncode(info ScriptListInfo) []byte { return info.encode() }
